@@ -41,7 +41,7 @@ def BOUNDS(tier):
 
 
 def REQUIRED_COVER(tier):
-    return {'registry', 'listdir-orders', 'ctor:boxed-alt', 'len:253', 'len:254', 'len:65536', 'flags:all-combos', 'vector:0', 'vector:3', 'nested-object', 'blockid',
+    return {'registry', 'listdir-orders', 'ctor:boxed-alt', 'len:253', 'len:254', 'len:65536', 'flags:all-combos', 'vector:0', 'vector:3', 'nested-object', 'nested-sequence', 'blockid',
             'string:utf8', 'vector:int', 'vector:int256', 'vector:bytes'}
 
 
@@ -139,7 +139,7 @@ class Gen:
             if p == 'true':
                 return True
             if p == 'bytes':
-                a = ch.choose(path + ':bytes', len(LENGTHS) + (4 if depth < 3 else 0))
+                a = ch.choose(path + ':bytes', len(LENGTHS) + (6 if depth < 3 else 0))
                 if a < len(LENGTHS):
                     return self.opaque(LENGTHS[a])
                 if a == len(LENGTHS):
@@ -148,7 +148,12 @@ class Gen:
                     return {'@type': 'adnl.message.query', 'query_id': 'ab' * 32, 'query': self.opaque(7)}
                 if a == len(LENGTHS) + 2:
                     return {'@type': 'liteServer.getMasterchainInfo'}        # an object WITHOUT fields: its encoding is the 4-byte id alone
-                return {'@type': 'liteServer.query', 'data': {'@type': 'liteServer.getTime'}}     # ... and one level down
+                if a == len(LENGTHS) + 3:
+                    return {'@type': 'liteServer.query', 'data': {'@type': 'liteServer.getTime'}}     # ... and one level down
+                if a == len(LENGTHS) + 4:
+                    # several boxed objects one after the other (the lite-client form 'prefix query + query'): the parser hands them out as a list
+                    return [{'@type': 'liteServer.getTime'}, {'@type': 'liteServer.getVersion'}]
+                return [{'@type': 'dht.ping', 'random_id': 5}, {'@type': 'liteServer.getTime'}, {'@type': 'dht.ping', 'random_id': -7}]
             if p == 'string':
                 a = ch.choose(path + ':string', 2 * len(LENGTHS) + 2)
                 if a >= 2 * len(LENGTHS):
@@ -236,6 +241,8 @@ def canon_type(S, t, v):
         if p == 'bytes' and isinstance(v, dict):
             ds = S.by_name.get(v.get('@type'), [])
             return ('@', v.get('@type'), canon(S, ds[0], v)) if len(ds) == 1 else ('UNKNOWN-OBJECT', repr(v)[:80])
+        if p == 'bytes' and isinstance(v, list):
+            return ('@list', tuple(canon_type(S, t, x) if isinstance(x, dict) else ('NOT-AN-OBJECT', repr(x)[:60]) for x in v))
         if p == 'bytes' and isinstance(v, (bytes, bytearray)):
             return bytes(v)
         if p in ('int', 'long') and isinstance(v, bool):
@@ -421,6 +428,10 @@ def _expected_type(S, L, t, x, untouchable):
         if untouchable:
             return S.encode(x, True)
         return expected_parse(S, L, S.by_name[x['@type']][0], x, True)
+    if k == 'prim' and t[1] == 'bytes' and isinstance(x, list):
+        if untouchable:
+            return b''.join(S.encode(y, True) for y in x)
+        return [expected_parse(S, L, S.by_name[y['@type']][0], y, True) for y in x]
     if k == 'vector':
         return [_expected_type(S, L, t[1], y, untouchable) for y in x]
     if k == 'bare':
@@ -437,9 +448,12 @@ def types_in(S, d, v, acc=None):
     def walk_t(t, x):
         k = t[0]
         if k == 'prim':
-            acc.add(t[1] if not (t[1] == 'bytes' and isinstance(x, dict)) else 'bytes-object')
+            acc.add(t[1] if not (t[1] == 'bytes' and isinstance(x, (dict, list))) else ('bytes-object' if isinstance(x, dict) else 'bytes-objects'))
             if t[1] == 'bytes' and isinstance(x, dict):
                 types_in(S, S.by_name[x['@type']][0], x, acc)
+            if t[1] == 'bytes' and isinstance(x, list):
+                for y in x:
+                    types_in(S, S.by_name[y['@type']][0], y, acc)
         elif k == 'nat':
             acc.add('#')
         elif k == 'vector':
@@ -466,7 +480,7 @@ def serialize_failure_kind(d, v):
     return 'other'
 
 
-PRIORITY = ['string', 'vector-of-int', 'vector-of-long', 'vector-of-int256', 'vector-of-int128', 'vector-of-bytes', 'vector-of-string', 'vector-of-boxed', 'vector-of-bare', 'true', 'bytes-object']
+PRIORITY = ['bytes-objects', 'string', 'vector-of-int', 'vector-of-long', 'vector-of-int256', 'vector-of-int128', 'vector-of-bytes', 'vector-of-string', 'vector-of-boxed', 'vector-of-bare', 'true', 'bytes-object']
 
 
 def diff_kind(S, d, v, got, want):
@@ -511,6 +525,8 @@ def explore_decl(rec, L, S, d, k, key_prefix=''):
                 rec.covered('vector:' + tname.split('-')[-1])
         if 'bytes-object' in ts:
             rec.covered('nested-object')
+        if 'bytes-objects' in ts:
+            rec.covered('nested-sequence')
         check_value(rec, L, S, d, res, key_prefix, 'case_value', args, devs)
         n += 1
     return n
